@@ -1617,6 +1617,37 @@ def make_repeat_tasks(ctx, cases):
                 s = [rng.randrange(n) for _ in range(rng.randint(4, 16))]   # with repetitions
             scheds.append(s)
         tasks.append(dict(case=case, pool=pool, pairs=set(pairs), schedules=scheds))
+    tasks += directed_budget_tasks(ctx)
+    return tasks
+
+
+BUDGET_SOURCES = [
+    # nine call sites of ONE function / ONE method: each query executes it once (or, for the fluent chain, up to
+    # three times); per-query budgets (ExecutionRecursionDetector) must be per query, not per Script
+    ("class Q:\n    def where(self, n):\n        return self\n\n\ndef base():\n    return Q()\n\n\n"
+     + ''.join("r%d = base().where(%d).where(%d)\n" % (i, i, i + 1) for i in range(1, 10))
+     + ''.join("r%d\n" % i for i in range(1, 10))),
+    ("def mk(v):\n    return v\n\n\nclass A:\n    pass\n\n\n"
+     + ''.join("a%d = mk(A())\n" % i for i in range(1, 10))
+     + ''.join("a%d\n" % i for i in range(1, 10))),
+]
+
+
+def directed_budget_tasks(ctx):
+    """Directed: >= 8 DIFFERENT queries on one Script that all execute the same user function, in order, reversed and
+    shuffled - the answer to each must be the fresh-Script answer whatever was asked before."""
+    tasks = []
+    for k, src in enumerate(BUDGET_SOURCES):
+        lines = src.split('\n')
+        uses = [i for i, ln in enumerate(lines, 1) if re.fullmatch(r'[ra]\d', ln)]
+        pool = [('infer', ln, 1) for ln in uses[:8]]
+        n = len(pool)
+        order = list(range(n))
+        sh = order[:]
+        ctx.rng.shuffle(sh)
+        case = dict(id='budget%d' % k, root=None, path=None, source=src, queries=pool)
+        tasks.append(dict(case=case, pool=pool, pairs={(i, i) for i in range(0, n, 3)},
+                          schedules=[order, order[::-1], sh, order + order]))
     return tasks
 
 
